@@ -24,7 +24,7 @@ def streams(tier, seed, n=None):
     n = n or COUNTS[tier]
     per = {"turchin": 0.25, "edit-dist": 0.3, "stub": 0.2, "sca": 0.15, "lexstat": 0.1}
     out = [("lex_corpus", corpus_cases())]
-    mod = 120 if tier == "quick" else 5          # the small scope: a seeded 1/120 sample, or 1/5 of it
+    mod = 121 if tier == "quick" else 5          # the small scope: a seeded 1/121 sample, or 1/5 (moduli coprime to the 12 method x linkage x threshold-pair combinations)
     out.append(("lex_small_scope", [c for i, c in enumerate(lx.exhaustive_cases()) if i % mod == seed % mod]))
     for m, share in per.items():
         out.append(("lex_" + m.replace("-", ""), [lx.gen_case(rng, methods=[m]) for _ in range(int(n * share))]))
@@ -81,7 +81,7 @@ def main(tier, seed, prop=PROP, prop_bits=PROP_BITS, run=None, n=None):
                  "near-duplicate words, unordered non-contiguous keys; method in turchin/edit-dist/sca/lexstat(fixed "
                  "scorer)/stub-oracle; linkage; two thresholds incl. thresholds equal to occurring distances). "
                  "Non-trivial = some concept with >=3 words is split into more than one but fewer than its number of "
-                 "words sets at one threshold; distinct by full input." % (120 if tier == "quick" else 5))
+                 "words sets at one threshold; distinct by full input." % (121 if tier == "quick" else 5))
     c["exhaustive"] = False
     return run.finish()
 
